@@ -61,7 +61,10 @@ Keys    == {"a", "b"}
 Vals    == {1, 2, 3}      \* 3 is rendered as the falsy value 0 (so that "set to something falsy" is covered)
 Titles  == IF ChainOnly THEN {""} ELSE {"t1", ""}
 QKeys   == IF ChainOnly THEN {"a"} ELSE Keys           \* keys QMetaData calls may set
-QVals   == IF ChainOnly THEN {1, 3} ELSE Vals
+(* Focus "qmdpath": one long derivation path of Select and QMetaData steps on one key (a value set, changed and *)
+(* set back again on different nodes of the path)                                                            *)
+PathFocus == Focus = "qmdpath"
+QVals   == IF PathFocus THEN {1, 2} ELSE IF ChainOnly THEN {1, 3} ELSE Vals
 Ovrs    == IF ChainOnly THEN {FALSE} ELSE BOOLEAN
 Newest(s) == ~ChainOnly \/ s = Len(streams)
 Cols    == Lst(<<StrC("c")>>)
@@ -109,7 +112,7 @@ Init == /\ heap = <<>> /\ streams = <<>> /\ pending = <<>> /\ execLog = <<>>
         /\ delivered = <<>> /\ ncalls = 0 /\ hist = <<>>
 
 NewDataset(typed) ==
-    /\ Room
+    /\ Room /\ (PathFocus => ~typed)
     /\ Cardinality({i \in 1..Len(heap) : heap[i].op = "EventDataset"}) < NDatasets
     /\ LET d == Cardinality({i \in 1..Len(heap) : heap[i].op = "EventDataset"}) + 1
            n == Len(heap) + 1
@@ -122,6 +125,7 @@ NewDataset(typed) ==
 (* ObjectStream(Name("e")): a stream whose root is a bare name (used for collection-valued items and in the  *)
 (* library's own tests); query metadata may be attached to it directly; it has no executor of its own       *)
 NewNameRoot ==
+    /\ ~PathFocus
     /\ Room /\ Focus = "qmd" /\ ~ChainOnly
     /\ \A i \in 1..Len(heap) : heap[i].op # "NameRoot"
     /\ LET n == Len(heap) + 1
@@ -145,7 +149,7 @@ NewSkim(s) ==
 
 (* Select / Where / SelectMany: a new node whose source IS the parent's node *)
 Derive(s, op, lam) ==
-    /\ Room /\ On({"imm", "exec", "qmd"}) /\ Newest(s)
+    /\ Room /\ (On({"imm", "exec", "qmd"}) \/ (PathFocus /\ op = "Select" /\ lam = LMet)) /\ Newest(s)
     /\ LET p == streams[s]
            n == Len(heap) + 1
        IN /\ heap' = Append(heap, Node(op, p.root, <<Emitted(lam, p.type)>>, NoQmd, 0))
@@ -167,7 +171,7 @@ MetaDataAct(s, md) ==
 (* QMetaData({k: v}): nothing new to record -> same node; otherwise a shallow copy of *)
 (* the top node carrying the dictionary                                               *)
 QMetaDataAct(s, k, v) ==
-    /\ Room /\ On({"qmd", "imm"}) /\ Newest(s)
+    /\ Room /\ On({"qmd", "imm", "qmdpath"}) /\ Newest(s)
     /\ LET p == streams[s]
            found == LookupQ(heap, p.root, k)
            n == Len(heap) + 1
